@@ -37,6 +37,9 @@ type Handler struct {
 	Blocks []Block `json:"blocks"`
 	Status bool    `json:"status,omitempty"` // sets status 200+k and an echo header
 	File   int     `json:"file,omitempty"`   // >0: answers with $res->file() of fixture file number File (the text goes into a header)
+	// Resp: "" write($out) | "success" | "error" | "format": answers through the formatted envelope
+	// (the text goes into a header); which formatter renders it is decided by where onFormat was registered
+	Resp string `json:"resp,omitempty"`
 }
 
 // fixture files served by $res->file(): from one to several io.Copy chunks
@@ -89,6 +92,9 @@ type W struct {
 	// Annot: the handlers are methods of annotated controller classes (#[Controller], #[GetMapping]) in an
 	// application directory mounted with $server->boot(), the middlewares are #[Middleware] classes
 	Annot bool `json:"annotation_controllers,omitempty"`
+	// OnFormatAt: 0 no custom formatter; 1 registered before all routes; 2 after the first route
+	// (routes registered earlier keep the default envelope)
+	OnFormatAt int `json:"on_format_at,omitempty"`
 }
 
 // accessors: how a handler reads the request parameter that identifies its request
@@ -183,11 +189,16 @@ func gen(r *verifsim.Rng, tier string) (any, hx.Sched) {
 		}
 		if !depthRun && r.Intn(5) == 0 {
 			hd.File = 1 + r.Intn(len(fileSizes)-1)
+		} else if !depthRun && r.Intn(5) == 0 {
+			hd.Resp = verifsim.Pick(r, []string{"success", "error", "format"})
 		}
 		w.Handlers = append(w.Handlers, hd)
 	}
 	w.MW = verifsim.Pick(r, []int{0, 0, 0, 1, 2})
 	w.Annot = !depthRun && r.Intn(5) == 0
+	if !depthRun {
+		w.OnFormatAt = verifsim.Pick(r, []int{0, 0, 1, 2, 2})
+	}
 	w.OnError = r.Intn(3) == 0
 	if depthRun {
 		w.MW = 0
@@ -316,6 +327,10 @@ $server = new Server('127.0.0.1', 0);
 	if w.OnError {
 		b.WriteString("$server->onError(function ($request, $response, $error) {\n  __err($request->header(\"X-Id\"), $error);\n  $response->status(500)->write(\"E:\" . $request->header(\"X-T\") . \":\" . $error);\n});\n")
 	}
+	onFormat := "$server->onFormat(function ($code, $message, $data) {\n  return [\"c\" => $code, \"m\" => $message, \"d\" => $data, \"fmt\" => \"custom\"];\n});\n"
+	if w.OnFormatAt == 1 {
+		b.WriteString(onFormat)
+	}
 	mwAttrs := ""
 	for i := 0; w.Annot && i < w.MW; i++ {
 		files[fmt.Sprintf("C11Mw%d.php", i)] = fmt.Sprintf("<?php\nclass C11Mw%d {\n  public function handle($request, $response, $next) {\n    $t = $request->header(\"X-T\");\n    $response->header(\"X-MW%d\", $t);\n    __gate();\n    $next($request, $response);\n    $request->attribute(\"after%d\", $t);\n  }\n}\n", i, i, i)
@@ -389,8 +404,13 @@ $server = new Server('127.0.0.1', 0);
 		closing := "});\n"
 		if w.Annot {
 			closing = "}\n}\n"
+		} else if w.OnFormatAt == 2 && h == 0 {
+			closing += onFormat // every later route is registered with the custom formatter
 		}
-		if hd.File > 0 {
+		if hd.Resp != "" {
+			call := map[string]string{"success": "$res->success([\"k\" => $k]);", "error": "$res->error(\"e\" . $k, 400 + $k);", "format": "$res->format(210 + $k, \"f\" . $k, [\"k\" => $k]);"}[hd.Resp]
+			fmt.Fprintf(b, "  $res->header(\"X-Out\", $out);\n  %s\n%s", call, closing)
+		} else if hd.File > 0 {
 			fmt.Fprintf(b, "  $res->header(\"X-Out\", $out);\n  $res->file(%q, \"dl-\" . $req->header(\"X-T\") . \".bin\");\n%s", filePath(hd.File), closing)
 		} else {
 			b.WriteString("  $res->write($out);\n" + closing)
@@ -402,6 +422,9 @@ $server = new Server('127.0.0.1', 0);
 	if w.Annot {
 		files["App.php"] = "<?php\nuse Net\\Annotation\\Application;\n#[Application(name: 'c11', scan: __DIR__)]\nclass C11App {\n  public static function boot(): void { }\n}\n"
 		fmt.Fprintf(main, "require %q;\n$routes = $server->boot(C11App::class);\n__rec(\"routes\", json_encode($routes));\n", filepath.Join(appDir, "App.php"))
+		if w.OnFormatAt == 2 {
+			main.WriteString(onFormat) // registered after the annotation routes were mounted
+		}
 	}
 	return main.String(), files
 }
@@ -727,6 +750,8 @@ func exec(t *testing.T, x any, s hx.Sched) *hx.Outcome {
 			}
 		case a.Body != b.Body && w.Handlers[w.Reqs[i].H].File > 0:
 			o.Violate("C11/file-body", detail)
+		case a.Body != b.Body && w.Handlers[w.Reqs[i].H].Resp != "":
+			o.Violate("C11/envelope/"+w.Handlers[w.Reqs[i].H].Resp, detail)
 		case a.Body != b.Body:
 			for _, k := range diffSegments(a.Body, b.Body) {
 				o.Violate("C11/segment/"+k, detail)
